@@ -23,7 +23,7 @@ RULE = ("base programs from the in-place/view history generator (views, reads, s
         "A fault point is non-trivial when the statement actually raised; distinct = (fault kind, target role, position class).")
 ASSUMPTIONS = ["faults are injected only at the kernel boundary (where operations raise), not at arbitrary bookkeeping lines",
                "a fault statement that does not raise is counted as 'did_not_raise' and not judged"]
-TIERS = {"quick": {"cases": 48, "nstmts": (3, 9), "max_positions": 12}, "thorough": {"cases": 4000, "nstmts": (4, 18), "max_positions": 40}}
+TIERS = {"quick": {"cases": 112, "nstmts": (3, 9), "max_positions": 12}, "thorough": {"cases": 4000, "nstmts": (4, 18), "max_positions": 40}}
 FLOORS = {"quick": {"fault_points_raised": 4000, "snapshots_compared": 4000, "final_compared": 4000},
           "thorough": {"fault_points_raised": 20000, "snapshots_compared": 20000, "final_compared": 20000}}
 CASE_TIMEOUT_S = 600
